@@ -11,10 +11,12 @@ PACK = 60
 
 def generate(tier, seed):
     rnd = random.Random(seed * 7919 + 13)
-    modes = ["graphs3", "edges", "layouts", "derives", "edges2", "pairroots", "kinds"]
+    modes = ["graphs3", "edges", "layouts", "derives", "edges2", "pairroots", "kinds", "graphs4"]
     with ThreadPoolExecutor(max_workers=4) as ex:
         outs = list(ex.map(lambda m: C.run_tlc("Gen_Project", "Gen_Project_" + m, workers=2, timeout=900, heap="6g").json_lines("REPLAY"), modes))
-    g3, ge, gl, gd, g2, gp, gk = outs
+    g3, ge, gl, gd, g2, gp, gk, g4 = outs
+    if len(g4) != 543:
+        raise C.ToolError("four-node DAG generation incomplete: %d" % len(g4))
     if len(g3) < 3000 or len(ge) < 3000 or len(gl) < 2560 or len(gd) < 3456 or len(g2) < 800:
         raise C.ToolError("graph generation incomplete: %d %d %d %d %d" % (len(g3), len(ge), len(gl), len(gd), len(g2)))
     if len(gp) < 192 + 360:
@@ -33,7 +35,7 @@ def generate(tier, seed):
                 seen.update(ks)
                 pick.append(c)
         gk = pick
-    total = (len(g3), len(ge), len(gl), len(gd), len(g2), len(gp), len(gk))
+    total = (len(g3), len(ge), len(gl), len(gd), len(g2), len(gp), len(gk), len(g4))
     rnd = random.Random(seed)
     if tier == "quick":
         g3 = rnd.sample(g3, 500)
@@ -79,7 +81,7 @@ def generate(tier, seed):
         gd = pick
         # nested edge contexts: every context pair at the parameter site, a seeded third of them at the return site
         g2 = [c for c in g2 if c["roots"][0]["site"] == "param" or rnd.random() < 0.34]
-    return g3 + ge + gl + gd + g2 + gp + gk, total
+    return g3 + ge + gl + gd + g2 + gp + gk + g4, total
 
 
 def observe(d, cases, modes=("none", "zod"), repeats=1):
